@@ -262,6 +262,12 @@ func init() {
 					}
 				}
 			}
+			// isolation sandwich with constructor-built requests (5 x 5 forms, any mode)
+			for f0 := 0; f0 <= 4; f0++ {
+				for f := 0; f <= 4; f++ {
+					jobs = append(jobs, Job{Dir: "z80", Harness: "VC10Sandwich", Params: []int{f0, f}, Label: fmt.Sprintf("VC10Sandwich/other%d/req%d", f0, f), MaxForks: 1024, MaxPaths: 4000})
+				}
+			}
 			for mode := 0; mode <= 2; mode++ {
 				encs := allEncodings()
 				if tier != "thorough" {
@@ -591,9 +597,21 @@ func init() {
 			for p := 0; p <= 14; p++ {
 				jobs = append(jobs, Job{Dir: "z80", Harness: "VC08Prog", Params: []int{p}, Label: fmt.Sprintf("VC08Prog/%d", p), MaxForks: 256})
 			}
+			// Run started on any encoding X, then HALTs: first iteration = Step(X) + stop rule
+			for intr := 0; intr <= 2; intr++ {
+				encs := allEncodings()
+				if intr > 0 && tier != "thorough" {
+					encs = reprEncs()
+				}
+				for _, j := range stepJobs(encs, "VC08Any", intr) {
+					j.Label += fmt.Sprintf("/intr%d", intr)
+					j.MaxForks, j.MaxPaths = 256, 4000
+					jobs = append(jobs, j)
+				}
+			}
 			return jobs
 		},
-		Bounds: map[string]interface{}{"scripted": "all programs of <= 3 (thorough 4) instructions drawn from {HALT, NOP, JP nn, LD BC,nn, INC A} with arbitrary operands, arbitrary start state and stale HALT flag, BreakPoints nil or an arbitrary set of <= 2 addresses; Run with the real Step vs a Step-driven twin with the stop rule written out", "scripted_interrupts": "same with the device raising an NMI during any instruction (shapes HALT, NOP, INC A)", "skeletons": "15 concrete program skeletons (<= 8 Steps) on an address-consistent bus with symbolic registers/data: HALT first, NOPs+HALT, breakpoint on start PC / on the HALT / inside a 3-byte instruction / across PC wrap / on a jumped-to HALT, DJNZ loop, second Run on a halted CPU, OUT whose device raises NMI / INT (enabled, disabled), the same with a breakpoint on the handler entry, Run again on a halted CPU with an NMI pending"},
+		Bounds: map[string]interface{}{"any_first_instruction": "Run started on each of the 1786 encodings X followed by HALTs (index-scripted memory, arbitrary operands/data, port input arbitrary), arbitrary start state, stale HALT flag, BreakPoints nil or arbitrary set of <= 2, no request / NMI / maskable request pending (quick: requests with 29 representative encodings)", "scripted": "all programs of <= 3 (thorough 4) instructions drawn from {HALT, NOP, JP nn, LD BC,nn, INC A} with arbitrary operands, arbitrary start state and stale HALT flag, BreakPoints nil or an arbitrary set of <= 2 addresses; Run with the real Step vs a Step-driven twin with the stop rule written out", "scripted_interrupts": "same with the device raising an NMI during any instruction (shapes HALT, NOP, INC A)", "skeletons": "15 concrete program skeletons (<= 8 Steps) on an address-consistent bus with symbolic registers/data: HALT first, NOPs+HALT, breakpoint on start PC / on the HALT / inside a 3-byte instruction / across PC wrap / on a jumped-to HALT, DJNZ loop, second Run on a halted CPU, OUT whose device raises NMI / INT (enabled, disabled), the same with a breakpoint on the handler entry, Run again on a halted CPU with an NMI pending"},
 		Assume: []string{"cancellation never happens (C13 covers it)", "scripted memory is not address-consistent (it models arbitrary instruction streams); address-consistent behaviour is covered by the skeletons", "programs longer than the bound: by induction over loop iterations (Run keeps no state between iterations besides the CPU — checked by the twin equality at every length up to the bound)"},
 		Stubs:  runStubs,
 		Rule:   "2 scripted jobs (every path = one program shape x stop behaviour) + 12 skeleton jobs; obligations: return value, number of Steps, final States/HALT, write log or bus trace, memory",
@@ -621,6 +639,16 @@ func init() {
 						}
 					}
 					jobs = append(jobs, Job{Dir: "z80", Harness: "VC13Script", Params: []int{at, kk, bp}, Label: fmt.Sprintf("VC13Script/at%d/k%d/bp%d", at, kk, bp), MaxForks: 4096, MaxPaths: 100000})
+				}
+			}
+			// never-ending programs on an address-consistent bus, cancelled at the at-th bus access
+			maxAt := 6
+			if tier == "thorough" {
+				maxAt = 16
+			}
+			for kind := 0; kind <= 13; kind++ {
+				for at := 0; at <= maxAt; at++ {
+					jobs = append(jobs, Job{Dir: "z80", Harness: "VC13Loop", Params: []int{kind, at}, Label: fmt.Sprintf("VC13Loop/kind%d/at%d", kind, at), MaxForks: 256, MaxPaths: 2000})
 				}
 			}
 			return jobs
@@ -653,6 +681,9 @@ func init() {
 			mk("VC15DumbIO")
 			for k := 0; k <= maxK; k++ {
 				mk("VC15DumbMemPut", k)
+				if k >= 2 {
+					mk("VC15DumbMemPutSelf", k)
+				}
 			}
 			for n := 0; n <= maxN; n++ {
 				mk("VC15MapGetSet", n)
